@@ -572,19 +572,20 @@ Proof.
   unfold event_time_bytes. cbn [r_unix r_nsec]. rewrite <- app_assoc. exact E.
 Qed.
 
-Theorem encode_buf_spec_from_lemma : forall schema cfg rec B ser buffer,
+(* encodeRecord on ANY buffer longer than the event (the preallocated one or a one-off one; the serializer's own
+   buffer length plays no role) *)
+Theorem serialize_on_spec : forall schema cfg rec B ser buffer,
   chains_ok schema cfg ->
   (length schema <= length (r_fields rec))%nat ->
   new_serializer schema cfg B = Ok ser ->
-  length buffer = B ->
-  (length (encode_spec schema cfg rec) < B)%nat ->
-  serialize_record_from ser rec buffer = Ok (encode_spec schema cfg rec).
+  (length (encode_spec schema cfg rec) < length buffer)%nat ->
+  serialize_on ser rec buffer = Ok (encode_spec schema cfg rec).
 Proof.
-  intros schema cfg rec B ser buffer V L Hnew Hbuf Hfit.
+  intros schema cfg rec B ser buffer V L Hnew Hfit.
   destruct (new_serializer_inv _ _ _ _ Hnew) as (Hm & Hk & Hek & Hloc & Hrw & Hb).
   pose proof V as Hver.
   pose proof (locate_all_length _ _ _ Hloc) as Hnloc.
-  unfold serialize_record_from, encode_record_on. rewrite Hm, Hk, Hek, Hnloc. rewrite map_length.
+  unfold serialize_on, encode_record_on. rewrite Hm, Hk, Hek, Hnloc. rewrite map_length.
   replace (length schema <=? length (r_fields rec))%nat with true by lia. cbn [obind].
   set (fields := firstn (length schema) (r_fields rec)).
   assert (Hfl : length fields = length schema) by (subst fields; rewrite firstn_length; lia).
@@ -672,16 +673,160 @@ Proof.
   cbn [obind]. rewrite src_slice_0. subst pre0. rewrite <- ?app_assoc. reflexivity.
 Qed.
 
+(* ------------------------------------------------------------------ *)
+(* maxEncodedLength bounds the event (fix 413c995)                      *)
+
+Lemma rw_header_length_le : forall m a, (length (rw_header m a) <= 5)%nat.
+Proof. intros. rewrite rw_header_length. destruct (N.of_nat m <? 65536)%N; lia. Qed.
+
+Lemma map_header_length_le : forall c n, (length (map_header c n) <= 3)%nat.
+Proof. intros. rewrite map_header_length. destruct (N.of_nat c <? 16)%N; lia. Qed.
+
+Section Bound.
+  Variables (schema : list bytes) (cfg : ser_config) (rec : record).
+  Hypothesis Hlen : (length schema <= length (r_fields rec))%nat.
+  Hypothesis Hver : chains_ok schema cfg.
+
+  (* one visible value: header (at most 5 bytes) + at most what MaxFieldLength reports / the value *)
+  Lemma value_bound : forall n v rwopt,
+    match lookup_rewrite (c_rewrite cfg) n with
+    | None => Ok None
+    | Some chain => new_rewriters schema chain
+    end = Ok rwopt ->
+    exists k, match rwopt with
+              | Some head => max_field_length head v rec
+              | None => Ok (length v)
+              end = Ok k /\ (length (enc_value schema cfg rec n v) <= 5 + k)%nat.
+  Proof.
+    intros n v rwopt Hrw. unfold enc_value. rewrite chain_of_lookup.
+    destruct (lookup_rewrite (c_rewrite cfg) n) as [[|rc ch]|] eqn:EL.
+    - cbn [new_rewriters] in Hrw. inversion Hrw; subst. exists (length v). split; [reflexivity|apply enc_str_length_le].
+    - destruct (verified_rewriters_spec schema (rc :: ch) ltac:(discriminate) (Hver _ _ EL)) as (rw & Hnew & M).
+      rewrite Hnew in Hrw. inversion Hrw; subst.
+      destruct (M rec v Hlen) as [Mmax _]. exists (rewrite_max schema (r_fields rec) (rc :: ch) v).
+      split; [exact Mmax|]. rewrite app_length.
+      pose proof (rw_header_length_le (rewrite_max schema (r_fields rec) (rc :: ch) v)
+                    (length (rewrite_spec schema (r_fields rec) (r_unescaped rec) (rc :: ch) v))).
+      pose proof (rewrite_spec_le_max schema (r_fields rec) (r_unescaped rec) (rc :: ch) v). lia.
+    - inversion Hrw; subst. exists (length v). split; [reflexivity|apply enc_str_length_le].
+  Qed.
+
+  Lemma max_fields_len_bound : forall names fields rws acc,
+    length fields = length names ->
+    build_rewriters schema cfg names = Ok rws ->
+    exists m, max_fields_len (map (mask_of cfg) names) (map enc_str names) rws fields rec acc = Ok m /\
+              (acc + length (flat_map (field_bytes schema cfg rec) (combine names fields)) <= m)%nat.
+  Proof.
+    induction names as [|n names IH]; intros fields rws acc Hl Hb.
+    - destruct fields; [|discriminate]. cbn. exists acc. split; [reflexivity|lia].
+    - destruct fields as [|v fields]; [discriminate|]. cbn [length] in Hl.
+      cbn [build_rewriters] in Hb.
+      destruct (match lookup_rewrite (c_rewrite cfg) n with
+                | Some chain => new_rewriters schema chain
+                | None => Ok None
+                end) as [rwopt| |] eqn:Erw; cbn [obind] in Hb; try discriminate.
+      destruct (build_rewriters schema cfg names) as [rws'| |] eqn:Eb; cbn [obind] in Hb; try discriminate.
+      inversion Hb; subst rws. clear Hb.
+      cbn [combine flat_map map max_fields_len].
+      rewrite field_bytes_pair. rewrite mask_of_hidden.
+      destruct (is_hidden cfg n || is_nil v) eqn:Emask.
+      + cbn [app]. apply IH; [lia|reflexivity].
+      + destruct (value_bound n v rwopt) as (k & Hk & Hle).
+        { destruct (lookup_rewrite (c_rewrite cfg) n); exact Erw. }
+        rewrite Hk. cbn [obind].
+        destruct (IH fields rws' (acc + length (enc_str n) + 5 + k)%nat ltac:(lia) eq_refl) as (m & Hm & Hmle).
+        exists m. split; [exact Hm|]. rewrite !app_length. lia.
+  Qed.
+End Bound.
+
+Lemma max_env_len_bound : forall schema names locs fields acc,
+  (length schema <= length fields)%nat ->
+  locate_all schema names = Ok locs ->
+  exists m, max_env_len locs (map enc_str names) fields acc = Ok m /\
+            (acc + length (flat_map (env_bytes schema fields) names) <= m)%nat.
+Proof.
+  intros schema names. induction names as [|n names IH]; intros locs fields acc Hf Hloc.
+  - cbn [locate_all] in Hloc. inversion Hloc; subst. cbn. exists acc. split; [reflexivity|lia].
+  - cbn [locate_all] in Hloc. destruct (index_of schema n) as [loc|] eqn:Eloc; [|discriminate].
+    destruct (locate_all schema names) as [locs'| |] eqn:El; cbn [obind] in Hloc; try discriminate.
+    inversion Hloc; subst locs. clear Hloc.
+    cbn [flat_map map max_env_len].
+    rewrite (get_field_value schema fields n loc Eloc Hf). cbn [obind].
+    destruct (IH locs' fields (acc + length (enc_str n) + 5 + length (field_value schema fields n))%nat Hf eq_refl)
+      as (m & Hm & Hmle).
+    exists m. split; [exact Hm|]. unfold env_bytes at 1. rewrite !app_length.
+    pose proof (enc_str_length_le (field_value schema fields n)). lia.
+Qed.
+
+(* maxEncodedLength never panics and is an upper bound of the length of the event: for every configuration with
+   valid chains, every schema, every record *)
+Theorem max_encoded_length_bound : forall schema cfg rec B ser,
+  chains_ok schema cfg ->
+  (length schema <= length (r_fields rec))%nat ->
+  new_serializer schema cfg B = Ok ser ->
+  exists m, max_encoded_length ser rec = Ok m /\ (length (encode_spec schema cfg rec) <= m)%nat.
+Proof.
+  intros schema cfg rec B ser V L Hnew.
+  destruct (new_serializer_inv _ _ _ _ Hnew) as (Hm & Hk & Hek & Hloc & Hrw & Hb).
+  unfold max_encoded_length. rewrite Hm, Hk, Hek. rewrite map_length.
+  replace (length schema <=? length (r_fields rec))%nat with true by lia. cbn [obind].
+  set (fields := firstn (length schema) (r_fields rec)).
+  assert (Hfl : length fields = length schema) by (subst fields; rewrite firstn_length; lia).
+  destruct (max_fields_len_bound schema cfg rec L V schema fields (s_rewriters ser) fixed_overhead Hfl Hrw)
+    as (m1 & Hm1 & Hle1).
+  rewrite Hm1. cbn [obind].
+  destruct (max_env_len_bound schema (c_env cfg) (s_env_locs ser) fields m1 ltac:(lia) Hloc) as (m2 & Hm2 & Hle2).
+  exists m2. split; [exact Hm2|].
+  unfold encode_spec. rewrite enc_fields_as_loop, enc_env_as_loop. fold fields.
+  rewrite !app_length.
+  pose proof (map_header_length_le (length schema + 1) (1 + length (visible schema cfg rec))).
+  pose proof (map_header_length_le (length (c_env cfg)) (length (c_env cfg))).
+  assert (length (event_time_bytes rec) = 8%nat) by reflexivity.
+  assert (length (enc_str str_environment) = 12%nat) by reflexivity.
+  unfold fixed_overhead in Hle1. cbn [length]. lia.
+Qed.
+
+(* the buffer SerializeRecord chooses is longer than the bound *)
+Lemma choose_buffer_length : forall buffer m, (m < length (choose_buffer buffer m))%nat.
+Proof.
+  intros buffer m. unfold choose_buffer. destruct (Nat.leb_spec (length buffer) m); [rewrite repeat_length|]; lia.
+Qed.
+
+(* ... hence strictly longer than the event, whatever the preallocated buffer is *)
+Theorem max_length_bounds_event_lemma : forall schema cfg rec B ser,
+  chains_ok schema cfg ->
+  (length schema <= length (r_fields rec))%nat ->
+  new_serializer schema cfg B = Ok ser ->
+  exists m, max_encoded_length ser rec = Ok m /\
+            (length (encode_spec schema cfg rec) <= m)%nat /\
+            forall buffer, (length (encode_spec schema cfg rec) < length (choose_buffer buffer m))%nat.
+Proof.
+  intros schema cfg rec B ser V L Hnew.
+  destruct (max_encoded_length_bound schema cfg rec B ser V L Hnew) as (m & Hm & Hle).
+  exists m. split; [exact Hm|]. split; [exact Hle|]. intros buffer. pose proof (choose_buffer_length buffer m). lia.
+Qed.
+
+(* SerializeRecord after the fix: for EVERY record and EVERY preallocated buffer (any length, any contents) the
+   complete event - no panic, no dropped record *)
+Theorem serialize_record_from_total : forall schema cfg rec B ser buffer,
+  chains_ok schema cfg ->
+  (length schema <= length (r_fields rec))%nat ->
+  new_serializer schema cfg B = Ok ser ->
+  serialize_record_from ser rec buffer = Ok (encode_spec schema cfg rec).
+Proof.
+  intros schema cfg rec B ser buffer V L Hnew. unfold serialize_record_from.
+  destruct (max_length_bounds_event_lemma schema cfg rec B ser V L Hnew) as (m & Hm & _ & Hfit).
+  rewrite Hm. cbn [obind]. apply (serialize_on_spec schema cfg rec B ser _ V L Hnew). apply Hfit.
+Qed.
+
 Theorem encode_buf_spec_lemma : forall schema cfg rec B ser,
   chains_ok schema cfg ->
   (length schema <= length (r_fields rec))%nat ->
   new_serializer schema cfg B = Ok ser ->
-  (length (encode_spec schema cfg rec) < B)%nat ->
   serialize_record ser rec = Ok (encode_spec schema cfg rec).
 Proof.
-  intros schema cfg rec B ser V L Hnew Hfit. unfold serialize_record.
-  destruct (new_serializer_inv _ _ _ _ Hnew) as (_ & _ & _ & _ & _ & Hb).
-  apply (encode_buf_spec_from_lemma schema cfg rec B ser _ V L Hnew); [rewrite repeat_length; exact Hb | exact Hfit].
+  intros schema cfg rec B ser V L Hnew. unfold serialize_record.
+  apply (serialize_record_from_total schema cfg rec B ser _ V L Hnew).
 Qed.
 
 (* ------------------------------------------------------------------ *)
@@ -874,19 +1019,17 @@ Theorem decode_serialized_lemma : forall schema cfg rec B ser buffer,
   (length schema <= length (r_fields rec))%nat ->
   N.of_nat (length schema) < 65535 ->
   N.of_nat (length (c_env cfg)) < 65536 ->
-  N.of_nat B <= 4294967296 ->
+  strings_small schema cfg rec ->
   new_serializer schema cfg B = Ok ser ->
-  length buffer = B ->
-  (length (encode_spec schema cfg rec) < B)%nat ->
   exists stream,
     serialize_record_from ser rec buffer = Ok stream /\ stream <> [] /\
     decode_all stream = Some (event_tree schema cfg rec, []).
 Proof.
-  intros schema cfg rec B ser buffer V L Hns Hne HB Hnew Hbuf Hfit.
+  intros schema cfg rec B ser buffer V L Hns Hne Hsm Hnew.
   exists (encode_spec schema cfg rec). split; [|split].
-  - eapply encode_buf_spec_from_lemma; eassumption.
+  - eapply serialize_record_from_total; eassumption.
   - unfold encode_spec. discriminate.
-  - apply decode_encode_lemma; [apply strings_small_of_size; lia | assumption | assumption].
+  - apply decode_encode_lemma; assumption.
 Qed.
 
 (* ------------------------------------------------------------------ *)
